@@ -115,7 +115,9 @@ DictTree(n, t, entries) ==
     IN EdgeP(mp, n, "canon", FALSE, 0, 0)
 \* fork extras: alternately a fixed non-zero and the all-zero value of the extra's type (only CC, U(n) and single-alternative
 \* record types of such leaves occur as extras in block.tlb)
-ZeroV(t) == CASE t.k \in {"U", "I", "Bits"} -> [i \in 1..t.n |-> 0]
+ZeroV(t) == CASE t.k \in {"U", "I", "Bits", "Zero", "UMax"} -> [i \in 1..t.n |-> 0]
+              [] t.k \in {"One", "UPos"} -> NatBits(1, t.n)
+              [] t.k = "Leq" -> [i \in 1..BitLen(t.n) |-> 0]
               [] t.k = "Bool" -> <<0>>
               [] t.k \in {"VarU", "VarI"} -> <<>>
               [] t.k = "CC" -> [grams |-> <<>>, other |-> <<>>]
@@ -124,7 +126,9 @@ ZeroV(t) == CASE t.k \in {"U", "I", "Bits"} -> [i \in 1..t.n |-> 0]
                         IF f = "c" THEN a.c ELSE ZeroV(a.fs[CHOOSE i \in 1..Len(a.fs) : a.fs[i].name = f].t)]
 ForkExtraV(t, d) ==
     IF d % 2 = 1 THEN ZeroV(t)
-    ELSE CASE t.k \in {"U", "I", "Bits"} -> [i \in 1..t.n |-> IF i % 2 = 1 THEN 1 ELSE 0]
+    ELSE CASE t.k \in {"U", "I", "Bits", "UPos"} -> [i \in 1..t.n |-> IF i % 2 = 1 THEN 1 ELSE 0]
+           [] t.k \in {"Zero", "One", "UMax"} -> ZeroV(t)
+           [] t.k = "Leq" -> NatBits(t.n, BitLen(t.n))
            [] t.k = "Bool" -> <<1>>
            [] t.k \in {"VarU", "VarI"} -> <<3, 9>>
            [] t.k = "CC" -> [grams |-> <<1, 44>>, other |-> <<[k |-> NatBits(11, 32), v |-> <<6>>]>>]
